@@ -191,6 +191,29 @@ func (r *Runner) exec(o *Op) (res string) {
 		if err != nil {
 			return "err"
 		}
+	case "modupd", "modpause", "modstart", "modkill":
+		// the module that owns the context drives it through the keeper API (no message, no ValidateBasic)
+		o.OK = true
+		id := ctxID(o.Tx, o.Idx)
+		var err error
+		switch o.Kind {
+		case "modupd":
+			var provs []sdk.AccAddress
+			for _, p := range o.Provs {
+				provs = append(provs, r.a.addr(p))
+			}
+			err = r.w.k.UpdateRequestContext(cctx, id, provs, uint32(o.Thr), o.Dep.coins(), o.Timeout, o.Freq, o.Total, r.a.addr(o.Who))
+		case "modpause":
+			err = r.w.k.PauseRequestContext(cctx, id, r.a.addr(o.Who))
+		case "modstart":
+			err = r.w.k.StartRequestContext(cctx, id, r.a.addr(o.Who))
+		case "modkill":
+			err = r.w.k.KillRequestContext(cctx, id, r.a.addr(o.Who))
+		}
+		if err != nil {
+			o.Note = err.Error()
+			return "err"
+		}
 	default:
 		msg := o.msg(r.a)
 		if verr := msg.ValidateBasic(); verr != nil {
